@@ -28,6 +28,7 @@ class Worker(object):
         self.extra_env = extra_env or {}
         self.proc = None
         self.restarts = 0
+        self.timeouts = 0
         self.start()
 
     def start(self):
@@ -44,7 +45,10 @@ class Worker(object):
         self.proc = subprocess.Popen([path, '-u', os.path.join(VERIF_ROOT, 'vf', 'worker', 'pyworker.py')],
                                      stdin=subprocess.PIPE, stdout=subprocess.PIPE, stderr=subprocess.DEVNULL, env=env)
 
-    def call(self, req, timeout=120):
+    def call(self, req, timeout=30):
+        if self.timeouts >= 3:
+            # a time budget hit is "inconclusive", never a violation: after three timeouts this worker is given up for the run
+            return {'timeout': True, 'given_up': True}
         if self.proc is None or self.proc.poll() is not None:
             self.restarts += 1
             self.start()
@@ -58,6 +62,7 @@ class Worker(object):
         r, _, _ = select.select([self.proc.stdout], [], [], timeout)
         if not r:
             self.kill()
+            self.timeouts += 1
             return {'timeout': True}
         line = self.proc.stdout.readline()
         if not line:
